@@ -1,4 +1,6 @@
 import Kio.Proofs.GenSpec
+import Kio.Proofs.GenCoherent
+import Kio.Props.C02
 import Kio.Pinned.Defs
 import Kio.Generated.Info
 /-!
@@ -12,10 +14,15 @@ conditions (each shown necessary by a kernel-checked counterexample in `Kio.Gen.
 * error-code names are not used for primitive-array fields;
 * non-array fields of a common-struct type are not nullable (the generator never annotates
   them `| None`).
-FULL STATEMENTS not proved: nullability for primitive arrays (false: known finding C16/H, see
-`primarr_nullable_witness`); coherence (`Schema.wf`) of every generated class and the
-byte-level agreement for an explicit `Supported` predicate — both checked per run by the
-driver (`gencheck`, `genenc`) on the definitions generated in that run, not proved universally.
+FULL STATEMENT not proved: nullability for primitive arrays (false: known finding C16/H, see
+`primarr_nullable_witness`).
+
+For the **supported subset** — the syntactic predicate `Gen.Supported d v` of Kio/Gen/Supported.lean,
+which the definitions drawn by `harness/defgen.py` are checked against on every run — the theorems
+`coherent`, `bytes_follow_spec`, `defaults`, `supported_names_distinct` below are unconditional:
+every generated class is coherent (so C01–C10 apply to it), its instances encode to exactly the
+bytes `Spec.enc` prescribes for the class whose fields are the definition's (`fields`), and every
+field's default is the one the definition states.
 -/
 namespace Kio.C16
 open Kio Kio.Gen
@@ -77,6 +84,50 @@ theorem primarr_nullable_witness :
     (match module d [] 0 with
      | .ok gs => gs.map (fun g => g.schema.fields.map (fun f => shapeNullable f.shape))
      | .error _ => []) = [[false]] := by decide
+
+/-- in the supported subset no two generated classes share a name (so `classes`, `fields`,
+    `nullability_partial` need no `hnd` there) -/
+theorem supported_names_distinct (d : MsgDef) (b : List (List Nat)) (v : Nat) (gs : List GClass)
+    (hs : Supported d v = true) (h : module d b v = .ok gs) : (gs.map (·.name)).Nodup :=
+  coh_module_nodup hs h
+
+/-- **coherence**: every class generated from a supported definition is coherent (`Schema.wf`, the
+    hypothesis of C01–C10), has no tagged nullable entity array and fewer than 2^35 fields -/
+theorem coherent (env : Env) (ht : env.time = TimeCfg.repaired)
+    (d : MsgDef) (b : List (List Nat)) (v : Nat) (gs : List GClass)
+    (hs : Supported d v = true) (h : module d b v = .ok gs) :
+    ∀ g ∈ gs, g.schema.wf env = true ∧ g.schema.tagArrOk = true ∧ g.schema.fewFields = true :=
+  module_coherent env ht d b v gs hs h
+
+/-- **bytes**: instances of the generated classes encode to exactly the bytes the wire-format
+    specification prescribes for the generated descriptor (whose fields, types, tags and
+    nullability are the definition's by `fields` / `nullability_partial`), and the encoder raises
+    exactly where there is no encoding -/
+theorem bytes_follow_spec (env : Env) (ht : env.time = TimeCfg.repaired)
+    (d : MsgDef) (b : List (List Nat)) (v : Nat) (gs : List GClass)
+    (hs : Supported d v = true) (h : module d b v = .ok gs)
+    (g : GClass) (hg : g ∈ gs) (val : Value) (hv : g.schema.valueOk env val = true) :
+    (enc env g.schema val).toOption = Spec.enc g.schema val := by
+  obtain ⟨hwf, hta, hfew⟩ := module_coherent env ht d b v gs hs h g hg
+  exact C02.impl_eq_spec env ht g.schema hwf hta hfew val hv
+
+/-- **defaults**: every field of every generated class has the default the definition states
+    (explicit default in any accepted spelling; zero value of a tagged ignorable primitive; empty
+    array; structure of defaults; none) -/
+theorem defaults (d : MsgDef) (b : List (List Nat)) (v : Nat) (gs : List GClass)
+    (hs : Supported d v = true) (h : module d b v = .ok gs) :
+    ∀ (i : Nat) (g : GClass) (e : DefSpec.ExpClass), gs[i]? = some g → (DefSpec.classesAt d b v)[i]? = some e →
+      ∀ (j : Nat) (f : Field) (ef : DefSpec.ExpField), g.schema.fields[j]? = some f → e.fields[j]? = some ef →
+        dfltAgrees ef.dflt f = true :=
+  module_defaults d b v gs hs h
+
+set_option maxRecDepth 100000 in
+/-- non-vacuity: at least 600 of the 666 (pinned definition, version) pairs are in the supported
+    subset (the others use a tagged structure without stated absence value, common structures
+    without an anchor field, or the name `RequestHeader`) -/
+theorem pinned_supported :
+    600 ≤ ((Pinned.defs.map (fun d => ((versionsOf d).filter (fun v => Supported d v)).length)).sum) := by
+  decide +kernel
 
 set_option maxRecDepth 100000 in
 /-- the side conditions and the agreement hold on all 666 (pinned definition, version) pairs:
